@@ -813,7 +813,7 @@ func checkAndDeleteKey(ctx context.Context,
 		var e error
 		attrs, e = blob.GetAttr(ctx, key)
 		if !errors.Is(e, status.ErrNotExists) {
-			return err
+			return e
 		}
 
 		return nil
@@ -821,6 +821,9 @@ func checkAndDeleteKey(ctx context.Context,
 		backoff.WithContext(insistantBackoff(), ctx),
 	); err != nil {
 		logger.Error("retrieving blob attributes", zap.Error(err))
+
+		// the age of the blob is unknown: it may be more recent than the index, keep it
+		return nil
 	}
 
 	// the blob has been created after the index: skip
@@ -844,7 +847,7 @@ func checkAndDeleteKey(ctx context.Context,
 	if err = backoff.Retry(func() error {
 		e := blob.Delete(ctx, key)
 		if !errors.Is(e, status.ErrNotExists) {
-			return err
+			return e
 		}
 		// under high pressure, google API often fails with: "googleapi: Error 503: We encountered an internal error. Please try again., backendError"
 
